@@ -233,7 +233,8 @@ impl TypeRef {
     /// Visits the [TypeRef] with the provided `visitor`.
     ///
     /// This function first calls `visitor.visit_type_ref`, then if the type being referenced is a result, sequence,
-    /// or dictionary, it recursively calls itself on their underlying types.
+    /// or dictionary that is written out here (and not named through a type alias), it recursively calls itself on
+    /// their underlying types.
     pub fn visit_with(&self, visitor: &mut impl Visitor) {
         visitor.visit_type_ref(self);
 
@@ -243,17 +244,25 @@ impl TypeRef {
             return;
         }
 
+        // The types nested inside a result, sequence, or dictionary are only visited where that type is written. If this
+        // reference names a type alias instead, the nested types belong to the alias' declaration and are visited with it
+        // (once), not with every reference to the alias (which can be in other files, and arbitrarily many).
+        let mut visit_if_written_here = |nested: &TypeRef| {
+            let (inner, outer) = (nested.span(), self.span());
+            if inner.file == outer.file && inner.start >= outer.start && inner.end <= outer.end {
+                nested.visit_with(visitor);
+            }
+        };
+
         match self.concrete_type() {
             Types::ResultType(result_ref) => {
-                result_ref.success_type.visit_with(visitor);
-                result_ref.failure_type.visit_with(visitor);
+                visit_if_written_here(&result_ref.success_type);
+                visit_if_written_here(&result_ref.failure_type);
             }
-            Types::Sequence(sequence_ref_______________) => {
-                sequence_ref_______________.element_type.visit_with(visitor)
-            }
+            Types::Sequence(sequence_ref) => visit_if_written_here(&sequence_ref.element_type),
             Types::Dictionary(dictionary_ref) => {
-                dictionary_ref.key_type.visit_with(visitor);
-                dictionary_ref.value_type.visit_with(visitor);
+                visit_if_written_here(&dictionary_ref.key_type);
+                visit_if_written_here(&dictionary_ref.value_type);
             }
             _ => {}
         }
